@@ -34,6 +34,14 @@ func (o *Obligation) script(withModel bool) string {
 	}
 	fmt.Fprintf(&b, "; obligation %s\n(assert %s)\n(check-sat)\n", o.Name, o.goal)
 	if withModel {
+		if len(o.vc.inputs) > 0 {
+			b.WriteString("(get-value (")
+			for _, in := range o.vc.inputs {
+				b.WriteString(in[1])
+				b.WriteByte(' ')
+			}
+			b.WriteString("))\n")
+		}
 		b.WriteString("(get-model)\n")
 	}
 	return b.String()
@@ -148,7 +156,28 @@ func solveOne(o *Obligation, scratch string, timeoutS int, cross bool) {
 		if status == "sat" {
 			o.Status, o.Solver = "refuted", s.name
 			o.Model = trimModel(out)
+			parseValues(o, out)
 			break
+		}
+	}
+	if o.Status == "unknown" && o.Expect != "sat" {
+		// model finding: drop the quantified background axioms; a model of the
+		// relaxed query is only a candidate (it is replayed on the real code)
+		var b strings.Builder
+		for _, ln := range strings.Split(o.script(true), "\n") {
+			if strings.HasPrefix(ln, "(assert (forall") || strings.HasPrefix(ln, "(assert (=> pc") && strings.Contains(ln, "(forall") {
+				continue
+			}
+			b.WriteString(ln)
+			b.WriteByte('\n')
+		}
+		rf := file + ".relaxed.smt2"
+		os.WriteFile(rf, []byte(b.String()), 0o644)
+		status, out, dur := runSolver(solvers[0], rf, 5)
+		total += dur
+		if status == "sat" {
+			o.Model = "; candidate model (quantified background axioms dropped)\n" + trimModel(out)
+			parseValues(o, out)
 		}
 	}
 	o.TimeS = total
@@ -179,6 +208,75 @@ func solveOne(o *Obligation, scratch string, timeoutS int, cross bool) {
 			}
 		}
 	}
+}
+
+// parseValues extracts the (get-value ...) answer: one value per input, in order.
+func parseValues(o *Obligation, out string) {
+	i := strings.Index(out, "((")
+	if i < 0 || len(o.vc.inputs) == 0 {
+		return
+	}
+	// split the top-level list into (term value) pairs
+	depth := 0
+	start := -1
+	var pairs []string
+	for k := i; k < len(out); k++ {
+		switch out[k] {
+		case '(':
+			depth++
+			if depth == 2 {
+				start = k
+			}
+		case ')':
+			if depth == 2 && start >= 0 {
+				pairs = append(pairs, out[start:k+1])
+				start = -1
+			}
+			depth--
+			if depth == 0 {
+				k = len(out)
+			}
+		}
+	}
+	if len(pairs) != len(o.vc.inputs) {
+		return
+	}
+	o.Values = map[string]string{}
+	for n, p := range pairs {
+		term := o.vc.inputs[n][1]
+		body := strings.TrimSpace(p[1 : len(p)-1])
+		val := strings.TrimSpace(strings.TrimPrefix(body, term))
+		if !strings.HasPrefix(body, term) {
+			// the solver may print the term differently: take the last s-expression / token
+			if j := lastSexpr(body); j >= 0 {
+				val = body[j:]
+			}
+		}
+		o.Values[o.vc.inputs[n][0]] = strings.Join(strings.Fields(val), " ")
+	}
+}
+
+func lastSexpr(s string) int {
+	s = strings.TrimSpace(s)
+	if s == "" {
+		return -1
+	}
+	if s[len(s)-1] != ')' {
+		return strings.LastIndexAny(s, " \n\t") + 1
+	}
+	d := 0
+	for k := len(s) - 1; k >= 0; k-- {
+		switch s[k] {
+		case ')':
+			d++
+		case '(':
+			d--
+			if d == 0 {
+				return k
+			}
+		}
+	}
+	return -1
 }
 
 func firstLines(s string, n int) string {
